@@ -102,7 +102,13 @@ def tool(policy_file, access_file, apply_rule, is_admin=False,
 
     if apply_rule:
         key = apply_rule
-        rule = rules[apply_rule]
+        try:
+            rule = rules[apply_rule]
+        except KeyError:
+            # Neither the rule nor a usable default rule is defined: the
+            # library fails closed
+            print("failed: %s" % key)
+            return
         _try_rule(key, rule, target_data, access_data, enforcer)
         return
 
